@@ -2420,7 +2420,151 @@ def r13(ctx):
     ctx.ob("C11.R13", "wire codec modules: no lossy error handler on any decode/encode", True, "hippolyzer/lib/base/serialization.py")
 
 
+def r14(ctx):
+    """The binary unpackers of the template table hand the unpacked wire value on as it is: a narrowing builtin
+    (bool(), round(), abs() ...) around the struct's result makes different wire values print alike."""
+    from . import c12
+    from .common import as_pair
+    repo = ctx.repo
+    ctx.rule("C11.R14", "template-table unpackers do not narrow the unpacked wire value (no bool()/round()/abs()/float32 around "
+                        "struct.unpack): every wire value prints as itself")
+    pmod = repo.module(c12.PACK)
+    tci, tnode, trows = c12._spec_rows(ctx, "TemplateDataPacker")
+    n = 0
+    for mtype, v in sorted(trows.items()):
+        unpackers = []
+        pair = as_pair(repo, pmod, v)
+        if pair is not None:
+            unpackers.append((None, pair[0]))
+        elif isinstance(v, ast.Call) and isinstance(v.func, ast.Name):
+            fac = next((g for g in repo.funcs.get(v.func.id, []) if g.module is pmod and g.cls is None and g.parent_fn is None), None)
+            if fac is None:
+                continue
+            for r_ in [x for x in walk(fac.node) if isinstance(x, ast.Return) and x.value is not None]:
+                pr = as_pair(repo, pmod, r_.value)
+                if pr is not None:
+                    unpackers.append((fac, pr[0]))
+        for fac, up in unpackers:
+            bodies = []
+            if fac is not None:
+                for params, rets, d, bound, _ in c12._resolve_callable(repo, fac, up):
+                    bodies.extend(rets)
+            elif isinstance(up, ast.Lambda):
+                bodies.append(up.body)
+            for b in bodies:
+                n += 1
+                bad = [c for c in calls(b, into_defs=True) if (ap(c.func) or "").split(".")[-1] in (NARROWING | {"bool"})
+                       and any(call_attr(x) in ("unpack", "unpack_from") for a in c.args for x in calls(a, into_defs=True))]
+                ctx.ob("C11.R14", f"TemplateDataPacker.SPECS[{mtype}]: unpacker hands the wire value on unnarrowed", not bad,
+                       ctx.w(pmod, b), "" if not bad else f"`{norm(bad[0])}`: wire values that differ (e.g. a BOOL byte of 2..255) "
+                       f"decode to the same Python value, print alike and re-encode as another byte")
+    ctx.floor("C11.R14", "unpacker bodies of the template table", n, 10)
+
+
+def r15(ctx):
+    """Bit masks a reader applies to the value it returns must be masks the writer applies too: a reader-only clamp
+    (`val &= LIMIT`) drops bits the writer can put on the wire."""
+    repo = ctx.repo
+    ctx.rule("C11.R15", "value masks agree: a constant ANDed into the value a deserialize()/decode() returns is also ANDed into "
+                        "what the sibling serialize()/encode() writes")
+    n = 0
+    for rel in ("hippolyzer/lib/base/templates.py", "hippolyzer/lib/base/serialization.py"):
+        mod = repo.module(rel)
+        ev = ConstEval(repo, mod)
+        for lst in repo.classes.values():
+            for ci in lst:
+                if ci.module is not mod:
+                    continue
+                for wname, rname in (("serialize", "deserialize"), ("encode", "decode")):
+                    if wname not in ci.methods or rname not in ci.methods:
+                        continue
+
+                    def mask_of(o, ci=ci):
+                        v = ev.ev(o)
+                        if isinstance(v, int) and not isinstance(v, bool):
+                            return v
+                        if isinstance(o, ast.Attribute) and (ap(o) or "").startswith(("self.", "cls.")):
+                            cv = repo.class_attr(ci, o.attr)
+                            cvv = ConstEval(repo, ci.module).ev(cv) if cv is not None else None
+                            return cvv if isinstance(cvv, int) and not isinstance(cvv, bool) else ap(o)
+                        return None
+
+                    def masks(fn, value_only: bool):
+                        out = {}
+                        # names that flow into a returned value
+                        flow = {x.id for r_ in walk(fn.node) if isinstance(r_, ast.Return) and r_.value is not None
+                                for x in ast.walk(r_.value) if isinstance(x, ast.Name)}
+                        grew = True
+                        while grew:
+                            grew = False
+                            for st_ in walk(fn.node, into_defs=True):
+                                tgt, val = None, None
+                                if isinstance(st_, ast.Assign) and isinstance(st_.targets[0], ast.Name):
+                                    tgt, val = st_.targets[0].id, st_.value
+                                elif isinstance(st_, ast.AugAssign) and isinstance(st_.target, ast.Name):
+                                    tgt, val = st_.target.id, st_.value
+                                if isinstance(st_, ast.Call) and isinstance(st_.func, ast.Attribute) and isinstance(st_.func.value, ast.Name) \
+                                        and st_.func.attr in ("append", "extend", "add", "insert"):
+                                    tgt, val = st_.func.value.id, ast.Tuple(elts=list(st_.args), ctx=ast.Load())
+                                if tgt in flow and val is not None:
+                                    srcs = [val]
+                                    # control dependence: the tests that decide whether / how often this update happens
+                                    srcs += [a.test for a in ancestors(st_) if isinstance(a, (ast.If, ast.While))]
+                                    for src_ in srcs:
+                                        for x in ast.walk(src_):
+                                            if isinstance(x, ast.Name) and x.id not in flow:
+                                                flow.add(x.id)
+                                                grew = True
+                        for st_ in walk(fn.node, into_defs=True):
+                            if isinstance(st_, ast.AugAssign) and isinstance(st_.op, ast.BitAnd):
+                                m_ = mask_of(st_.value)
+                                if m_ is not None and (not value_only or (isinstance(st_.target, ast.Name) and st_.target.id in flow)):
+                                    out[m_] = st_
+                            elif isinstance(st_, (ast.Assign, ast.AugAssign)):
+                                tname = st_.targets[0].id if isinstance(st_, ast.Assign) and isinstance(st_.targets[0], ast.Name) else \
+                                    (st_.target.id if isinstance(st_, ast.AugAssign) and isinstance(st_.target, ast.Name) else None)
+                                if value_only and tname not in flow:
+                                    continue
+                                for x in ast.walk(st_.value):
+                                    if isinstance(x, ast.BinOp) and isinstance(x.op, ast.BitAnd):
+                                        for o in (x.left, x.right):
+                                            m_ = mask_of(o)
+                                            if m_ is not None:
+                                                out[m_] = x
+                            elif not value_only:
+                                for x in ast.walk(st_) if isinstance(st_, ast.stmt) else []:
+                                    if isinstance(x, ast.BinOp) and isinstance(x.op, ast.BitAnd):
+                                        for o in (x.left, x.right):
+                                            m_ = mask_of(o)
+                                            if m_ is not None:
+                                                out[m_] = x
+                        return out
+                    rm = masks(ci.methods[rname], True)
+                    wm = dict(masks(ci.methods[wname], False))
+                    # bits the writer sets / shifts by are bits the reader may test: every integer constant of a bit operation
+                    for x in walk(ci.methods[wname].node, into_defs=True):
+                        ops_ = []
+                        if isinstance(x, ast.BinOp) and isinstance(x.op, (ast.BitOr, ast.BitAnd, ast.LShift, ast.RShift, ast.BitXor)):
+                            ops_ = [x.left, x.right]
+                        elif isinstance(x, ast.AugAssign) and isinstance(x.op, (ast.BitOr, ast.BitAnd, ast.LShift, ast.RShift, ast.BitXor)):
+                            ops_ = [x.value]
+                        for o in ops_:
+                            m_ = mask_of(o)
+                            if m_ is not None:
+                                wm.setdefault(m_, x)
+                    for m_, node in sorted(rm.items(), key=lambda kv: str(kv[0])):
+                        n += 1
+                        whole_bytes = isinstance(m_, int) and m_ in (0xFF, 0xFFFF, 0xFFFFFFFF, 0xFFFFFFFFFFFFFFFF)
+                        ctx.ob("C11.R15", f"{ci.name}.{rname}: value mask {m_ if not isinstance(m_, int) else hex(m_)} is applied by "
+                                          f"{wname} too", m_ in wm or whole_bytes, ctx.w(ci.methods[rname], node),
+                               f"{rname} clears bits of the value it returns with a mask {wname} never applies: wire values that use "
+                               f"those bits come back different (and re-encode differently)")
+    ctx.floor("C11.R15", "value masks in readers", n, 1)
+
+
 def run(ctx):
+    r15(ctx)
+    r14(ctx)
     r13(ctx)
     r12(ctx)
     r11(ctx)
